@@ -8,9 +8,13 @@ FUNK = ['FIX8::MessageBase::extract_element(const char*, unsigned, char*, char*)
 
 def run(ctx):
     kf = codec.kfs('C03'); defs = kf_defines(kf)
-    ll = ctx.build_ir('codec_c03.cpp', 'leaf')
     roots = ['vf_extract_element', 'vf_extract_element_fw']
-    ctx.translate(ll, roots, 'c03k.c')
+    # the wrappers call the extractors the way decode/decode_group do (no explicit capacity): the verification build scales
+    # FIX8_MAX_FLD_LENGTH to the harness capacity, so a capacity-aware extractor (default = FIX8_MAX_FLD_LENGTH) sees the real bound
+    for cap in (24, 32):
+        llc = ctx.build_ir('codec_c03.cpp', 'leaf', extra=['-DFIX8_MAX_FLD_LENGTH=%d' % cap])
+        ctx.translate(llc, roots, 'c03k_%d.c' % cap)
+    ll = ctx.build_ir('codec_c03.cpp', 'leaf')
     ctx.translate(ll, roots, 'c03kgen.c', opts=['--prefix', 'gen_'])
     exe = ctx.native('codecdiff', ['replay/codec_diff.c', ctx.work + '/c03kgen.c', 'shims/codec_c03.cpp'])
     r = sh([exe, str(ctx.seed)])
@@ -23,7 +27,7 @@ def run(ctx):
     for n, ct, cv, modes in (full if ctx.tier == 'thorough' else quick):
         for mode, nm in ((0, 'ext'), (1, 'fw')):
             if not (modes >> mode) & 1: continue
-            ctx.add(Harness('C03_%s_n%d_c%d' % (nm, n, ct), VERIF + '/harness/C03_ext.c', defines=defs + ['NIN=%d' % n, 'CAPT=%d' % ct, 'CAPV=%d' % cv, 'MODE=%d' % mode],
+            ctx.add(Harness('C03_%s_n%d_c%d' % (nm, n, ct), VERIF + '/harness/C03_ext.c', defines=defs + ['NIN=%d' % n, 'CAPT=%d' % ct, 'CAPV=%d' % cv, 'MODE=%d' % mode, 'KFILE="c03k_%d.c"' % ct],
                             unwind=max(n, ct, cv) + 2, timeout=900, functions=[FUNK[mode]],
                             bounds='every byte string of exactly %d bytes (object ends with the input); tag buffer %d bytes, value buffer %d bytes%s' % (
                                 n, ct, cv, '; every val_sz <= %d' % (cv - 1) if mode else '') + (' (24 = FIX8_MAX_FLD_LENGTH scaled from 2048)' if ct == 24 else ' (real MAX_MSGTYPE_FIELD_LEN)'),
